@@ -59,9 +59,10 @@ def trapBoundary (a b : Rat) (e m : Nat) : Rat :=
 def trapInner (a b : Rat) (e l m : Nat) : Rat :=
   sumRange l (m + 1 - l) (fun j => coeff a b e m j * stepWidth a b j)
 
-/-- `RombergSimpsonWeights.get_boundary_point_weight(max_level)` -/
+/-- `RombergSimpsonWeights.get_boundary_point_weight(max_level)`: level 0 is a single interval and contributes the
+    trapezoidal row (`/ 2`), the Simpson rows of the levels `j ≥ 1` contribute `/ 3` -/
 def simpBoundary (a b : Rat) (m : Nat) : Rat :=
-  sumRange 0 (m + 1) (fun j => coeff a b 3 m j * stepWidth a b j) / 3
+  sumRange 0 (m + 1) (fun j => coeff a b 3 m j * stepWidth a b j / (if j = 0 then 2 else 3))
 
 /-- `RombergSimpsonWeights.get_inner_point_weight(level, max_level)` -/
 def simpInner (a b : Rat) (l m : Nat) : Rat :=
@@ -272,10 +273,10 @@ inductive Res (α : Type) where
   | assertWeights       -- AssertionError raised by `get_weights`
   deriving Repr, DecidableEq
 
-/-- the grid and levels `set_grid` works with (`force_balanced_refinement_tree`) -/
+/-- the grid and levels `set_grid` works with (`force_balanced_refinement_tree and len(grid) > 2`) -/
 def effectiveGrid (cfg : Cfg) (grid : List Rat) (lv : List Nat) : Option (List Rat × List Nat) :=
   if grid.length ≠ lv.length ∨ grid.length < 2 then none else
-  if cfg.forceBalanced then
+  if cfg.forceBalanced && decide (grid.length > 2) then
     match GBT.initTree grid lv with
     | none => none
     | some t => some (t.forceFull.grid, t.forceFull.gridLevels)
